@@ -93,6 +93,14 @@ IMPLEMENTED = set(open(os.path.join(os.path.dirname(os.path.dirname(os.path.absp
 
 def judge(cv, aspects):
     """returns list of (aspect, detail) where impl disagrees with the CPU on defined state; None if not comparable"""
+    try:
+        return _judge(cv, aspects)
+    except (ValueError, IndexError):
+        # a malformed line from the CPU oracle (it died inside this case): not comparable
+        return None
+
+
+def _judge(cv, aspects):
     if cv.kv is None:
         return None
     if cv.kv["code"] not in IMPLEMENTED:
